@@ -17,7 +17,7 @@ func init() {
 	fw.Register(&fw.Check{
 		ID:    "C15",
 		Level: "exploration",
-		Rule: "every instruction and terminator of every function of every accepted corpus module (atoms with all 66 kinds, /repo testdata, llvm-stress, generated modules) is examined: (1) completeness: the addresses of all non-nil value-typed fields found by reflection (directly, in argument lists, Incoming, Case, Clause, OperandBundle) must be exactly the pointers returned by Operands(); (2) liveness: a fresh same-typed sentinel written through each slot must change exactly that operand in LLString() and restoring must restore the text; (3) replace-all-uses: substituting a value through the slots of all users must leave no occurrence of its identifier in the printed function besides its definition; (4) Succs() must equal the block-valued target fields in order, be blocks of the same function, and follow a target rewritten through a slot. " +
+		Rule: "every instruction and terminator of every function of every accepted corpus module (atoms with all 66 kinds, /repo testdata, llvm-stress, generated modules) is examined: (1) completeness: the addresses of all non-nil value-typed fields found by reflection (directly, in argument lists, Incoming, Case, Clause, OperandBundle) must be exactly the pointers returned by Operands(); (2) liveness: a fresh same-typed sentinel written through each slot must change exactly that operand in LLString() and restoring must restore the text; (3) replace-all-uses: substituting a value through the slots of all users must leave no occurrence of its identifier in the printed function besides its definition; (4) Succs() must equal the block-valued target fields in order, be blocks of the same function, and follow a target rewritten through a slot; (5) after the operand-holding lists (Incs, Args, Cases, Clauses, Indices, bundles) are replaced by equal copies, Operands() must describe the new slots. " +
 			"non-trivial = an instruction/terminator with at least one operand slot; distinct by (instruction kind, printed text)",
 		Gen:           genC15,
 		MinNontrivial: 300,
@@ -245,6 +245,94 @@ func c15User(r *fw.Rec, id, text string, f *ir.Func, u interface{}) {
 		}
 		r.Tally("liveness", "slot-live")
 	}
+	c15AfterSliceEdit(r, text, u)
+}
+
+// c15AfterSliceEdit re-checks completeness after the user's operand-holding
+// slices were replaced by fresh copies (new backing arrays, and fresh element
+// objects where the elements are pointers, e.g. phi.Incs[i] =
+// ir.NewIncoming(...)): Operands() must describe the slots as they are now, not
+// as they were when it was first called.
+func c15AfterSliceEdit(r *fw.Rec, text string, u interface{}) {
+	op := u.(operander)
+	kind := kindOf(u)
+	rv := reflect.ValueOf(u)
+	if rv.Kind() != reflect.Ptr || rv.Elem().Kind() != reflect.Struct {
+		return
+	}
+	st := rv.Elem()
+	type saved struct {
+		f   reflect.Value
+		old reflect.Value
+	}
+	var undo []saved
+	edited := 0
+	for i := 0; i < st.NumField(); i++ {
+		f := st.Field(i)
+		if f.Kind() != reflect.Slice || !f.CanSet() || f.Len() == 0 {
+			continue
+		}
+		et := f.Type().Elem()
+		isVal := et.Kind() == reflect.Interface
+		isPtrStruct := et.Kind() == reflect.Ptr && et.Elem().Kind() == reflect.Struct
+		if !isVal && !isPtrStruct {
+			continue
+		}
+		if name := st.Type().Field(i).Name; name == "Metadata" || name == "Successors" {
+			continue
+		}
+		cp := reflect.MakeSlice(f.Type(), f.Len(), f.Len())
+		for k := 0; k < f.Len(); k++ {
+			e := f.Index(k)
+			if isPtrStruct && !e.IsNil() {
+				ne := reflect.New(et.Elem())
+				ne.Elem().Set(e.Elem())
+				cp.Index(k).Set(ne)
+			} else {
+				cp.Index(k).Set(e)
+			}
+		}
+		undo = append(undo, saved{f, reflect.ValueOf(f.Interface())})
+		f.Set(cp)
+		edited++
+	}
+	if edited == 0 {
+		return
+	}
+	defer func() {
+		for _, s := range undo {
+			s.f.Set(s.old)
+		}
+		resetSuccCache(u)
+	}()
+	slots := valueSlots(u)
+	var ops []*value.Value
+	if p, msg, _ := fw.Guard(func() { ops = op.Operands() }); p {
+		r.Violate(fw.Violation{Key: "operands-panic-after-edit/" + kind, Input: text, What: "Operands() panics after the operand slices were replaced by copies: " + msg})
+		return
+	}
+	r.Eval(1)
+	inOps := map[*value.Value]bool{}
+	for _, p := range ops {
+		inOps[p] = true
+	}
+	inSlots := map[*value.Value]bool{}
+	for _, p := range slots {
+		inSlots[p] = true
+		if *p != nil && !inOps[p] {
+			r.Violate(fw.Violation{Key: "stale-after-edit/" + kind + "/" + slotName(u, p), Input: text,
+				What: fmt.Sprintf("after Operands() was called and the %s's operand lists were replaced by equal copies (as `x.Incs[i] = ir.NewIncoming(...)` does), Operands() does not expose the live slot %s", kind, slotName(u, p))})
+			return
+		}
+	}
+	for _, p := range ops {
+		if !inSlots[p] {
+			r.Violate(fw.Violation{Key: "stale-after-edit/" + kind + "/detached-slot", Input: text,
+				What: fmt.Sprintf("after the %s's operand lists were replaced by equal copies, Operands() still returns pointers into the old lists", kind)})
+			return
+		}
+	}
+	r.Tally("liveness", "operands-follow-replaced-lists")
 }
 
 func resetSuccCache(u interface{}) {
